@@ -7,8 +7,8 @@ effect on the peer record.
 Lines (answers after `→`):
   `new <section> …`                                  → `ok`   (`new fork <state> <head> <own P/E/? per height from 1>` sets the own chain)
   `cap <n|-> <gate 0/1>`                             → `ok` | `no-cap`      (decoded-length cap found in protocol.Decode)
-  `site <fn> <field> <root var> <count> <expected> <nil checks> <expected> <class>`
-                                                     → `ok` | `unclassified` | `count-changed` | `guard-count-changed` | `not-modelled`
+  `site <fn> <field> <unguarded dereferences> <expected> <class>`
+                                                     → `ok` | `unclassified` | `count-changed` | `not-modelled`
   `census-end <rows>`                                → `ok` | `stale-model:<fn>|<field>` (a modelled site no longer exists)
   `holders <t,…>`                                    → `ok` | `incomplete`
   `frame <cap> <len> x<first ≤16 bytes> <bodyOk>`    → `rej big=0` | `ok <n> big=<0|1>` | `rej big=<0|1>`
@@ -180,15 +180,14 @@ def step (st : DSt) (line : String) : DSt × String :=
   | ["cap", c, g] =>
     if c = "-" ∨ g ≠ "1" then (st, "no-cap") else
     match parseNat? c with | some _ => (st, "ok") | none => (st, "bad-op")
-  | ["site", fn, field, _root, cnt, want, g, wantG, cls] =>
-    match parseNat? cnt, parseNat? want, parseNat? g, parseNat? wantG with
-    | some c, some w, some gc, some gw =>
+  | ["site", fn, field, cnt, want, cls] =>
+    match parseNat? cnt, parseNat? want with
+    | some c, some w =>
       if cls = "unclassified" then (st, "unclassified")
       else if !siteClassified fn field cls then (st, "not-modelled")
       else if c ≠ w then (st, "count-changed")
-      else if gc ≠ gw then (st, "guard-count-changed")
       else ({ st with seen := (fn, field) :: st.seen }, "ok")
-    | _, _, _, _ => (st, "bad-op")
+    | _, _ => (st, "bad-op")
   | ["census-end", _] =>
     match modelledSites.find? (fun s => !st.seen.contains s) with
     | none => ({ st with seen := [] }, "ok")
